@@ -11,7 +11,7 @@ import time
 
 HERE = os.path.dirname(os.path.abspath(__file__))
 VERIF = os.path.dirname(HERE)
-LEAN = os.path.join(VERIF, 'lean')
+LEAN = os.environ.get('VERIF_LEAN_DIR') or os.path.join(VERIF, 'lean')   # (override: parallel tooling runs only)
 REPO = os.environ.get('VAKT_REPO', '/repo')
 DRV = os.path.join(LEAN, '.lake', 'build', 'bin', 'vaktdrv')
 ALLOWED_AXIOMS = {'propext', 'Classical.choice', 'Quot.sound'}
